@@ -12,14 +12,9 @@ Three clauses, three strengths (DESIGN.md section 4 / C20, assignment a10):
     a check", which is not yet "strict") and that, over a stated finite universe of shapes for all argument
     positions jointly, each callable's effective contract accepts EXACTLY the documented forms
     (C20_contracts_accept_exactly_documented_forms).  Per-callable strictness for ALL shapes is proved by a
-    symbolic reading of the contract (P_shape_forms.accepts_iff_forms) for 57 callables directly and for 20 more
-    through their delegates; the 11 listed in C20_all_shapes_coverage keep the finite universe + probes.
-(2) STACKED = ROW BY ROW — VALIDATED (correspondence + oracle over the whole API, tools/api_registry.py); the
-    per-function `_stacked_is_map` lemmas live with the other properties.
-(3) PURITY / DETERMINISM / REJECTION — VALIDATED, not proved (a Gallina function cannot mutate its argument):
-    every array argument and the receiver are snapshotted (bytes + flags) around every call, every call is
-    made twice, and a fixed family of wrong shapes is fed to every array argument position; the model
-    `run_contract` on the probe shapes is compared with the observed accept / exception class inside Coq.
+    symbolic reading of the contract (P_shape_forms.accepts_iff_forms) for 58 of the 88 registered array-taking
+    callables; 20 delegating callables have the all-shapes statement in contract terms only (documented forms:
+    finite universe); 8 finite universe only; 2 exempt (C20_all_shapes_coverage pins these numbers).
 """
 import itertools
 import os
@@ -69,8 +64,7 @@ TRUSTED = ["Coq 8.16.1 kernel, vm_compute (golden-contract equality, finite tabl
            "tools/api_registry.py: documented single/stacked forms, hand-written from the docstrings",
            "clause (1) shape strictness: the shape-check LAYER is proved for all shapes; per callable, `accepts exactly the "
            "documented forms` is proved over a stated finite shape universe (and for all k, m for two callables) and "
-           "for ALL shapes for 57 callables directly and 20 through their delegates (C20_all_shapes_coverage), "
-           "otherwise validated by probes; clause (2) stacked = row by row and clause (3) purity / determinism / "
+           "per callable (C20_all_shapes_coverage): 58 callables: `accepted iff a documented form` for ALL shapes and any receiver length (C20_accepts_iff_documented_form_all_shapes); 20 delegating callables: for all shapes only in CONTRACT terms (own symbolic forms and the callees' forms on the wired arguments, C20_delegating_accepts_iff_callee_forms_all_shapes; callees are covered / external / pass-through) and against their DOCUMENTED forms over the finite universe only; 8 callables: finite universe only (CheckSame / NeedsShape contracts and their delegators); 2 exempt even there (rodrigues_vector_to_rotation_matrix: refuted, known finding; cv2_rodrigues: oracle only); world_to_view's `up` is the one not-modelled (callable, argument) pair; everything else validated by probes; clause (2) stacked = row by row and clause (3) purity / determinism / "
            "rejection: VALIDATED on the probe family only",
            "NumPy, vg"]
 ASSUMPTIONS = ["SPECIFICATION JUDGEMENT CALL: `one item against a stack` -- points (3,) with plane_equations (m,4) for "
@@ -78,13 +72,7 @@ ASSUMPTIONS = ["SPECIFICATION JUDGEMENT CALL: `one item against a stack` -- poin
                "reference_points_of_lines / vectors_along_lines (m,3) for project_point_to_line -- is NOT in the docstrings; "
                "the registry lists it as documented because the code admits it explicitly (`-1 if k is None else k`) and "
                "computes it row by row; read strictly, it is an undocumented accepted form",
-               "per-callable strictness (`accepted shapes = documented forms`) is PROVED FOR ALL SHAPES for 57 of the 88 "
-               "registered array-taking callables (C20_accepts_iff_documented_form_all_shapes: no delegation, golden contract "
-               "in the normal form nf_ok) and, in terms of the callee's forms on the wired arguments, for 20 delegating "
-               "callables (C20_delegating_accepts_iff_callee_forms_all_shapes); the 11 callables listed in "
-               "C20_all_shapes_coverage (CheckSame / NeedsShape / CheckFlat contracts, their delegators, cv2_rodrigues, "
-               "world_to_view) have it only over the finite universe of C20_contracts_accept_exactly_documented_forms "
-               "(minus forms_exempt) and by probes",
+               "per-callable strictness, exact numbers of the 88 registered array-taking callables -- 58 callables: `accepted iff a documented form` for ALL shapes and any receiver length (C20_accepts_iff_documented_form_all_shapes); 20 delegating callables: for all shapes only in CONTRACT terms (own symbolic forms and the callees' forms on the wired arguments, C20_delegating_accepts_iff_callee_forms_all_shapes; callees are covered / external / pass-through) and against their DOCUMENTED forms over the finite universe only; 8 callables: finite universe only (CheckSame / NeedsShape contracts and their delegators); 2 exempt even there (rodrigues_vector_to_rotation_matrix: refuted, known finding; cv2_rodrigues: oracle only); world_to_view's `up` is the one not-modelled (callable, argument) pair",
                "clause (1) is a proof about the shape-check layer (M_shape.v) applied to the contracts extracted from "
                "the source; that NumPy code after the checks does not reject or broadcast further is validated by "
                "probing, not proved",
@@ -97,7 +85,9 @@ ASSUMPTIONS = ["SPECIFICATION JUDGEMENT CALL: `one item against a stack` -- poin
                "numbers) are outside the property text and only probed for the shape helpers themselves"]
 
 # theorems that only pin the shape of the model (true of the model by unfolding); reported separately by the driver
-DEFINITIONAL = ["C20_x_too_few_points"]
+DEFINITIONAL = ["C20_x_too_few_points", "C20_all_shapes_covered_have_rows", "C20_all_shapes_coverage",
+                "C20_callee_forms_env_independent", "C20_delegate_callees_are_covered_external_or_passthrough",
+                "C20_no_single_shape_check_shape_any"]   # unfoldings / table look-ups that pin coverage, not clauses
 
 INT_KINDS = {"faces", "faces8", "insidx", "segidx", "breaks"}
 BOOL_KINDS = {"mask", "facemask"}
@@ -520,6 +510,52 @@ def _curve(rng, n, exact, flavour):
     return pts, rise_ax, run_ax
 
 
+def _grad(xs, fs):
+    """np.gradient(fs, xs), edge_order 1, in exact rationals (same formula as M_inflection.grad_at)"""
+    n = len(xs)
+    out = []
+    for i in range(n):
+        if i == 0:
+            out.append((fs[1] - fs[0]) / (xs[1] - xs[0]))
+        elif i == n - 1:
+            out.append((fs[i] - fs[i - 1]) / (xs[i] - xs[i - 1]))
+        else:
+            d1, d2 = xs[i] - xs[i - 1], xs[i + 1] - xs[i]
+            out.append(-d2 / (d1 * (d1 + d2)) * fs[i - 1] + (d2 - d1) / (d1 * d2) * fs[i] + d1 / (d2 * (d1 + d2)) * fs[i + 1])
+    return out
+
+
+def _base(c):
+    return c.get("base", c["kind"])
+
+
+def judged(c):
+    """how much of an inflection / maxacc case K_C20.check_case really compares (mirrors its 1e-6 band):
+    (decisions compared, decisions skipped) or None when the case is outside the model"""
+    from fractions import Fraction as Fr
+    pts = [[Fr(x) for x in p] for p in c["points"]]
+    n = len(pts)
+    if n < 2:
+        return (1, 0)
+    dot = lambda p, a: sum(x * Fr(y) for x, y in zip(p, a))
+    xs, ys = [dot(p, c["run"]) for p in pts], [dot(p, c["rise"]) for p in pts]
+    inc = all(a < b for a, b in zip(xs, xs[1:]))
+    dec = all(a > b for a, b in zip(xs, xs[1:]))
+    if not (inc or dec):
+        return None
+    d1 = _grad(xs, ys)
+    d2 = _grad(xs, d1)
+    band = Fr(1, 10 ** 6)
+    if _base(c) == "inflection":
+        far = sum(1 for i in range(n - 1) if c["exact"] or abs(d2[i] * d2[i + 1]) > band)
+        return (far + 1, (n - 1) - far)
+    valid = [0 < i < n - 1 and d1[i - 1] > 0 and d1[i + 1] > 0 for i in range(n)]
+    cands = [i for i in range(n) if valid[i]]
+    best = None if not cands else max(cands, key=lambda i: (d2[i], -i))
+    clear = all(abs(v) > band for v in d1) and (best is None or all(j == best or abs(d2[best] - d2[j]) > band for j in cands))
+    return (1, 0) if (c["exact"] or clear) else (0, 1)
+
+
 def extra_cases(rng, reps):
     out = []
     for rep in range(reps):
@@ -530,18 +566,30 @@ def extra_cases(rng, reps):
                                  (4, False, "wiggle"), (5, False, "wiggle"), (6, False, "rising"), (7, False, "wiggle"),
                                  (8, False, "falling"), (9, False, "wiggle"), (12, False, "wiggle"), (3, False, "rising")):
                 pts, rise_ax, run_ax = _curve(rng, n, exact, fl)
-                out.append({"kind": kind, "exact": exact, "flavour": fl, "points": pts, "rise": rise_ax, "run": run_ax})
+                if rng.random() < 0.3:
+                    pts = pts[::-1]          # the same curve traversed against the run axis (decreasing coordinates)
+                case = {"kind": kind, "base": kind, "exact": exact, "flavour": fl, "points": pts, "rise": rise_ax, "run": run_ax}
+                j = judged(case)
+                # the evidence histogram shows how many cases K really judges: <kind> = every decision compared,
+                # <kind>_partly_judged / _not_judged = decisions inside the 1e-6 band skipped, _outside_model = Ok None
+                case["judged"] = j
+                if j is None:
+                    case["kind"] = kind + "_outside_model"
+                elif j[1] != 0:
+                    case["kind"] = kind + ("_partly_judged" if j[0] > 0 else "_not_judged")
+                case["base"] = kind
+                out.append(case)
         for wrap in (False, True):
             for n in (0, 1, 2, 3, 5, 8):
                 arr = [float(rng.randint(0, 2)) for _ in range(n)]
-                out.append({"kind": "find", "arr": arr, "wrap": wrap})
+                out.append({"kind": "find", "base": "find", "arr": arr, "wrap": wrap})
     return out
 
 
 def run_extra(c):
     from polliwog.polyline import inflection_points, point_of_max_acceleration
     from polliwog.polyline._array import find_changes, find_repeats
-    if c["kind"] == "find":
+    if _base(c) == "find":
         arr = np.array(c["arr"], dtype=np.float64)
         before = arr.copy()
 
@@ -554,7 +602,7 @@ def run_extra(c):
     pts = np.array(c["points"], dtype=np.float64).reshape(-1, 3)
     rise, run = np.array(c["rise"]), np.array(c["run"])
     before = (pts.copy(), rise.copy(), run.copy())
-    fn = inflection_points if c["kind"] == "inflection" else point_of_max_acceleration
+    fn = inflection_points if _base(c) == "inflection" else point_of_max_acceleration
 
     def rows_to_indices(rows):
         idx = []
@@ -568,7 +616,7 @@ def run_extra(c):
         r2 = fn(pts, rise, run)
         o = {"outcome": "ok", "args_unchanged": all(np.array_equal(a, b) for a, b in zip(before, (pts, rise, run))),
              "deterministic": snap(r1) == snap(r2)}
-        if c["kind"] == "inflection":
+        if _base(c) == "inflection":
             o["indices"] = rows_to_indices(r1)
         else:
             o["index"] = None if r1 is None else rows_to_indices(r1)[0]
@@ -578,18 +626,18 @@ def run_extra(c):
 
 def coq_extra(c, o):
     from common import coq_bool, coq_list, coq_nat, q, qv
-    if c["kind"] == "find":
+    if _base(c) == "find":
         if "raise" in o:
             return "CFind [] false [true] []"   # no call of find_* is expected to raise: make the case fail
         return "CFind %s %s %s %s" % (coq_list(q(x) for x in c["arr"]), coq_bool(c["wrap"]),
                                       coq_list(coq_bool(b) for b in o["rep"]), coq_list(coq_bool(b) for b in o["chg"]))
     pts = coq_list(qv(p) for p in c["points"])
-    head = "%s %s %s %s %s" % ("CInflection" if c["kind"] == "inflection" else "CMaxAcc", coq_bool(c["exact"]), pts,
+    head = "%s %s %s %s %s" % ("CInflection" if _base(c) == "inflection" else "CMaxAcc", coq_bool(c["exact"]), pts,
                                qv(c["rise"]), qv(c["run"]))
     if "raise" in o:
         known = {"ValueError", "IndexError", "KeyError", "AttributeError", "TypeError", "AssertionError", "ZeroDivisionError"}
         return "%s (Raise %s)" % (head, o["raise"] if o["raise"] in known else "OtherError")
-    if c["kind"] == "inflection":
+    if _base(c) == "inflection":
         return "%s (Ok %s)" % (head, coq_list(coq_nat(i) for i in o["indices"]))
     return "%s (Ok %s)" % (head, "None" if o["index"] is None else "(Some %s)" % coq_nat(o["index"]))
 
@@ -598,24 +646,24 @@ def oracle_extra(c, o):
     if "raise" in o:
         # fewer than two points: point_of_max_acceleration raises ValueError; inflection_points fails inside
         # np.gradient with IndexError (mirrored by the model; the property text does not speak about it)
-        if c["kind"] == "maxacc" and len(c["points"]) < 2 and o["raise"] == "ValueError":
+        if _base(c) == "maxacc" and len(c["points"]) < 2 and o["raise"] == "ValueError":
             return None
-        if c["kind"] == "inflection" and len(c["points"]) < 2 and o["raise"] in ("IndexError", "ValueError"):
+        if _base(c) == "inflection" and len(c["points"]) < 2 and o["raise"] in ("IndexError", "ValueError"):
             return None
-        return "%s raised %s: %s" % (c["kind"], o["raise"], o.get("msg"))
-    if c["kind"] != "find" and len(c["points"]) < 2:
-        return "%s accepted fewer than two points" % c["kind"]
+        return "%s raised %s: %s" % (_base(c), o["raise"], o.get("msg"))
+    if _base(c) != "find" and len(c["points"]) < 2:
+        return "%s accepted fewer than two points" % _base(c)
     if not o["args_unchanged"]:
-        return "%s modified an array argument" % c["kind"]
+        return "%s modified an array argument" % _base(c)
     if not o["deterministic"]:
-        return "%s called twice gave different results" % c["kind"]
-    if c["kind"] == "inflection":
+        return "%s called twice gave different results" % _base(c)
+    if _base(c) == "inflection":
         idx = o["indices"]
         if any(i < 0 for i in idx):
             return "inflection_points returned a row that is not an input row"
         if idx != sorted(set(idx)) or (idx and idx[-1] >= len(c["points"]) - 1):
             return "inflection_points rows are not increasing input rows before the last one: %r" % idx
-    elif c["kind"] == "maxacc":
+    elif _base(c) == "maxacc":
         i = o["index"]
         if i is not None and not (0 < i < len(c["points"]) - 1):
             return "point_of_max_acceleration returned row %r, which is not an interior input row" % i
@@ -720,7 +768,7 @@ def run_helper(c):
 def run_impl(c):
     if c["kind"] == "helper":
         return run_helper(c)
-    if c["kind"] in EXTRA_KINDS:
+    if _base(c) in EXTRA_KINDS:
         return run_extra(c)
     e = A.BY_PUBLIC[c["callable"]]
 
@@ -879,7 +927,7 @@ def coq_case(c, o):
 
 
 def _coq_case(c, o):
-    if c["kind"] in EXTRA_KINDS:
+    if _base(c) in EXTRA_KINDS:
         return coq_extra(c, o)
     if c["kind"] == "helper":
         h = c["helper"]
@@ -891,11 +939,11 @@ def _coq_case(c, o):
             chk = 'Columnize "x" %s' % coq_pat(h["pattern"])
         return 'CHelper (%s) [] [("x", %s)] %s' % (chk, coq_argv(c["shape"]), coq_outcome(o))
     e = A.BY_PUBLIC[c["callable"]]
-    if not e.model:
+    if not e.model or any(c["shapes"].get(a) is not None for a in e.unmodelled):
         return 'CNoModel "%s"' % e.qual
     b0 = recv_b0(e, c["seed"])
     b0t = "[%s]" % "; ".join('("%s", Some %d%%nat)' % (k, v) for k, v in sorted(b0.items()))
-    args = "[%s]" % "; ".join('("%s", %s)' % (a, coq_argv(c["shapes"].get(a))) for a in e.params)
+    args = "[%s]" % "; ".join('("%s", %s)' % (a, coq_argv(c["shapes"].get(a))) for a in e.params if a not in e.unmodelled)
     return 'CProbe "%s" %s %s %s' % (e.qual, b0t, args, coq_outcome(o))
 
 
@@ -905,7 +953,7 @@ def _coq_case(c, o):
 def oracle(c, o):
     if c["kind"] == "helper":
         return None
-    if c["kind"] in EXTRA_KINDS:
+    if _base(c) in EXTRA_KINDS:
         return oracle_extra(c, o)
     e = A.BY_PUBLIC[c["callable"]]
     if not o.get("args_unchanged", True):
@@ -928,9 +976,11 @@ def oracle(c, o):
 
 
 def classify(c, o, failure, disagrees):
-    if c["kind"] == "find" and failure and "output length" in failure and not c["arr"] and not c["wrap"]:
+    if disagrees:
+        return None   # a model / implementation disagreement is never a known finding
+    if _base(c) == "find" and failure and "output length" in failure and not c["arr"] and not c["wrap"]:
         return "polyline._array.find:empty_nowrap_length"
-    if c["kind"] == "helper" or c["kind"] in EXTRA_KINDS or not failure:
+    if c["kind"] == "helper" or _base(c) in EXTRA_KINDS or not failure:
         return None
     e = A.BY_PUBLIC[c["callable"]]
     if "not a documented form" in failure:
@@ -973,7 +1023,7 @@ def coq_tables(defs=("delegation", "documented_args", "external_contracts", "not
     doc = []
     for e in sorted(A.R, key=lambda e: e.qual):
         if e.params:
-            doc.append('  ("%s", [%s])' % (e.qual, "; ".join('"%s"' % a for a in e.params)))
+            doc.append('  ("%s", [%s])' % (e.qual, "; ".join('"%s"' % a for a in e.params if a not in e.unmodelled)))
     def fsh(sh):
         if sh is None:
             return "FNone"
@@ -983,20 +1033,29 @@ def coq_tables(defs=("delegation", "documented_args", "external_contracts", "not
     frm = []
     for e in sorted(A.R, key=lambda e: e.qual):
         if e.params:
-            fs = ["[%s]" % "; ".join('("%s", %s)' % (a, fsh(f.get(a))) for a in e.params) for f in e.forms]
+            fs = []
+            for f in e.forms:   # forms projected on the modelled parameters (duplicates removed)
+                t = "[%s]" % "; ".join('("%s", %s)' % (a, fsh(f.get(a))) for a in e.params if a not in e.unmodelled)
+                if t not in fs:
+                    fs.append(t)
             frm.append('  ("%s", [\n     %s])' % (e.qual, ";\n     ".join(fs)))
     ext = ";\n".join('  ("%s", [%s])' % (n, "; ".join(cs)) for n, cs in A.EXTERNAL)
     unm = "; ".join('"%s"' % e.qual for e in sorted(A.R, key=lambda e: e.qual) if e.params and not e.model)
+    unma = "; ".join('("%s", "%s")' % (e.qual, a) for e in sorted(A.R, key=lambda e: e.qual) for a in sorted(e.unmodelled))
     return ("Definition %s : list (string * list delegate) := [\n%s\n].\n\n"
             "Definition %s : list (string * list string) := [\n%s\n].\n\n"
             "(* checks performed outside polliwog (vg), hand-written from site-packages/vg/core.py *)\n"
             "Definition %s : contracts := [\n%s\n].\n\n"
             "(* callables whose acceptance logic is not a sequence of shape checks (judged by the oracle only) *)\n"
             "Definition %s : list string := [%s].\n\n"
+            "(* (callable, array parameter) pairs that are rejected by something else than a shape check (world_to_view's `up`:\n"
+            "   by vg.cross / np.array); the callable is modelled with that parameter ignored, the tables below omit it, and\n"
+            "   probes that pass it are judged by the oracle only *)\n"
+            "Definition not_modelled_args : list (string * string) := [%s].\n\n"
             "(* the documented single / stacked forms of every registered array-taking callable (arguments in the order of\n"
             "   documented_args; length symbols shared between arguments; minimum sizes are value checks and omitted) *)\n"
             "Definition %s : list (string * list form) := [\n%s\n].\n"
-            % (defs[0], ";\n".join(rows), defs[1], ";\n".join(doc), defs[2], ext, defs[3], unm, defs[4], ";\n".join(frm)))
+            % (defs[0], ";\n".join(rows), defs[1], ";\n".join(doc), defs[2], ext, defs[3], unm, unma, defs[4], ";\n".join(frm)))
 
 
 def pre_build(bdir):
@@ -1011,7 +1070,8 @@ def pre_build(bdir):
     with open(os.path.join(bdir, "Registry.v"), "w") as f:
         f.write("(* generated from tools/api_registry.py -- do not edit *)\nFrom Coq Require Import List String.\n"
                 "From PW.model Require Import M_shape.\nImport ListNotations.\nLocal Open Scope string_scope.\n\n")
-        f.write(coq_tables(("gen_delegation", "gen_documented_args", "gen_external_contracts", "gen_not_modelled", "gen_documented_forms")))
+        f.write(coq_tables(("gen_delegation", "gen_documented_args", "gen_external_contracts", "gen_not_modelled",
+                            "gen_documented_forms")).replace("Definition not_modelled_args", "Definition gen_not_modelled_args"))
     for fn in ("Contracts.v", "Registry.v"):
         p = subprocess.run(["timeout", "120", "coqc", "-w", "-all", "-Q", os.path.join(VERIF, "coq"), "PW", "-Q", bdir, "Gen",
                             os.path.join(bdir, fn)], stdout=subprocess.PIPE, stderr=subprocess.STDOUT, text=True)
@@ -1120,7 +1180,7 @@ Proof. apply (dec_true (contracts_eq_dec extracted expected)). vm_compute. refle
 Lemma registry_tables_as_committed :
   gen_delegation = delegation /\\ gen_documented_args = documented_args /\\
   gen_external_contracts = external_contracts /\\ gen_not_modelled = not_modelled /\\
-  gen_documented_forms = documented_forms.
+  gen_documented_forms = documented_forms /\\ gen_not_modelled_args = not_modelled_args.
 Proof. repeat split; vm_compute; reflexivity. Qed."""
     return [Kernel("contracts", {}, lambda: None, lemma,
                    imports=[("Coq", "String"), ("PW.model", "M_shape"), ("PW.proofs", "P_shape"), ("PW.corr", "C20_expected"), ("Gen", "Contracts"),
@@ -1135,8 +1195,10 @@ def golden_text():
     body = body.replace("(* generated by tools/astextract.py -- do not edit *)\n", "")
     head = ("(* GOLDEN shape contracts of polliwog (C20): what every function / method of every non-test module checks\n"
             "   directly, in program order, as reviewed against the documented single / stacked forms of each docstring.\n"
-            "   Produced once with `python tools/props/C20.py golden` on the tree with the proposed fixes/C20-*.diff\n"
-            "   applied, then reviewed by hand.  Every check re-extracts the contracts from the source and proves\n"
+            "   Produced with `python tools/props/C20.py golden` on /repo after the fix commits 41f0cd6 (euler), e40d90b\n"
+            "   (intersect_lines / intersect_2d_lines), 0ead1a8 (Plane point selection / line_segment_xsections), 647303a\n"
+            "   (slice_triangles_by_plane mask length), 529236b (subdivide_segment(s)), 5ca020b (Polyline.aligned_along_subsegment,\n"
+            "   with_segments_bisected; later 9cca2eb), then reviewed by hand.  Every check re-extracts the contracts from the source and proves\n"
             "   `extracted = expected` (build/C20/Traced_contracts.v); a deleted or weakened check breaks that lemma.\n"
             "   `delegation` says which callee performs the checks for callables that do none themselves (each row is\n"
             "   validated by probing on every run); `documented_args` lists the array parameters each public callable\n"
@@ -1197,6 +1259,11 @@ Definition delegating_row (name : string) : bool :=
   has_delegates name && forallb nf_ok (contract_of all_contracts name) &&
   forallb (fun d => forallb nf_ok (contract_of all_contracts (callee d))) (delegates_list name).
 Definition all_shapes_via_delegates : list string := filter delegating_row (map fst documented_forms).
+(* status of a delegate's callee: itself covered for all shapes, an external (vg) contract, or a pass-through delegator
+   with no checks of its own (its own delegates are listed as further rows of the caller) *)
+Definition callee_status_ok (d : delegate) : bool :=
+  mem (callee d) (map fst (filter all_shapes_row documented_forms)) || mem (callee d) (map fst external_contracts) ||
+  match contract_of all_contracts (callee d) with [] => true | _ => false end.
 Definition all_shapes_covered : list string := map fst (filter all_shapes_row documented_forms).
 Definition all_shapes_not_covered : list string := map fst (filter (fun nf => negb (all_shapes_row nf)) documented_forms).
 """
